@@ -122,6 +122,58 @@ func mutateJSON(rg *rand.Rand, doc []byte) []byte {
 	}
 }
 
+// describesValidHello: the map's extension list could come from a syntactically valid
+// ClientHello (no extension type twice apart from GREASE placeholders, pre_shared_key last).
+func describesValidHello(m map[string][]byte) bool {
+	e := m["extensions"]
+	if len(e)%2 != 0 {
+		return false
+	}
+	seen := map[uint16]bool{}
+	n := len(e) / 2
+	for i := 0; i < n; i++ {
+		t := uint16(e[2*i])<<8 | uint16(e[2*i+1])
+		if wire.IsGREASE(t) {
+			continue
+		}
+		if seen[t] {
+			return false
+		}
+		seen[t] = true
+		if t == 41 && i != n-1 {
+			return false
+		}
+	}
+	return true
+}
+
+// specDescribesValidHello: the imported spec has no extension type twice (GREASE apart) and
+// pre_shared_key, if any, last - i.e. it can describe a syntactically valid ClientHello.
+func specDescribesValidHello(sp *tls.ClientHelloSpec) bool {
+	seen := map[uint16]bool{}
+	for i, e := range sp.Extensions {
+		if _, ok := e.(*tls.UtlsGREASEExtension); ok {
+			continue
+		}
+		if _, ok := e.(tls.PreSharedKeyExtension); ok && i != len(sp.Extensions)-1 {
+			return false
+		}
+		t, ok := ExtTypeOf(e)
+		if !ok {
+			if g, isG := e.(*tls.GenericExtension); isG {
+				t = g.Id
+			} else {
+				continue
+			}
+		}
+		if seen[t] {
+			return false
+		}
+		seen[t] = true
+	}
+	return true
+}
+
 // C07 — Spec importers never panic and valid captures always yield usable specs.
 func TestC07(t *testing.T) {
 	r := mon.New("C07", "hostile inputs to FingerprintClientHello/FromRaw (random bytes, mutated valid hellos incl. truncation at every offset and length-field extremes, re-framed mutations), every extension's Write (hostile bodies), ClientHelloSpec.UnmarshalJSON (mutated testdata and harness-rendered documents) and ImportTLSClientHello(FromJSON) (every key at lengths 0..9 and random bytes); panic = violation (input journaled before each call, child process); for inputs the strict parser accepts the returned spec must survive ApplyPreset+BuildHandshakeState without panicking. distinct = (target, outcome, input length bucket)")
@@ -194,10 +246,10 @@ func TestC07(t *testing.T) {
 			if _, perr := wire.ParseClientHello(rec[5:]); perr == nil {
 				r.Count("valid_inputs_applied", 1)
 				applySpec("FingerprintClientHello", rec, spec)
-			} else if i%4 == 0 {
-				// accepted although not strictly valid: still must not panic later
-				applySpec("FingerprintClientHello(lenient)", rec, spec)
 			}
+			// (a spec the importer returned for an input that is NOT a valid ClientHello - duplicate
+			// extensions, pre_shared_key not last - is outside the second sentence of the statement:
+			// ApplyPreset answers those with its explanatory panics, which is not a violation)
 		}
 	}
 
@@ -351,7 +403,7 @@ func TestC07(t *testing.T) {
 			}
 			var spec tls.ClientHelloSpec
 			err, pn := guard("ClientHelloSpec.UnmarshalJSON", d, func() error { return json.Unmarshal(d, &spec) })
-			if !pn && err == nil && i%3 == 0 {
+			if !pn && err == nil && i%3 == 0 && specDescribesValidHello(&spec) {
 				applySpec("ClientHelloSpec.UnmarshalJSON", d, &spec)
 			}
 			if i%5 == 0 {
@@ -379,7 +431,7 @@ func TestC07(t *testing.T) {
 		}
 		var spec tls.ClientHelloSpec
 		err, pn := guard("ImportTLSClientHello", flat, func() error { return spec.ImportTLSClientHello(m) })
-		if !pn && err == nil {
+		if !pn && err == nil && describesValidHello(m) {
 			applySpec("ImportTLSClientHello", flat, &spec)
 		}
 		if jb, e := json.Marshal(m); e == nil {
